@@ -16,6 +16,11 @@ import (
 func init() { commands["c01"] = runC01 }
 
 func runC01(ctx *Ctx) {
+	for c := 0; c < ctx.N(6, 60); c++ {
+		if ctx.Want(900000 + c) {
+			contractCase(ctx, 900000+c, ctx.Sub(900000+c), "keepalive", "c01-")
+		}
+	}
 	nseq := ctx.N(150, 4000)
 	var wg sync.WaitGroup
 	sem := make(chan struct{}, 12)
